@@ -59,9 +59,19 @@ L1Core(CT) == {t \in L1(CT) : t.n \in {"A", "B"} /\ t.a[1] \in {IntT, Num, Wild(
 L2(CT) == {t \in {A(x) : x \in Args(L1Core(CT))} \cup {B(x) : x \in Args(L1Core(CT))} : WF(CT, t)}
 Universe(CT, depth) == {TopT, Bot} \cup G0 \cup L1(CT) \cup (IF depth >= 2 THEN L2(CT) ELSE {})
 
+\* ---- built-in arrays (C06): Array<T> and Kotlin's specialised arrays (IntArray = SArray<Int>: a class of its own, related to no Array<..>) ----
+\* the driver replaces the declared variance of Array by the language's own (Java / Groovy arrays are covariant) and drops SArray terms
+\* for the other languages
+Arr(x) == Cls("Array", <<x>>)
+SArr(x) == Cls("SArray", <<x>>)
+ArrEntries == [Array |-> [tp |-> <<TP("T", "inv", <<>>)>>, sup |-> <<TopT>>], SArray |-> [tp |-> <<TP("T", "inv", <<>>)>>, sup |-> <<TopT>>]]
+WithArrays(CT) == [c \in DOMAIN CT \cup DOMAIN ArrEntries |-> IF c \in DOMAIN CT THEN CT[c] ELSE ArrEntries[c]]
+ArrTerms(CT) == {t \in {Arr(IntT), Arr(Num), Arr(Wild("out", <<Num>>)), Arr(Wild("in", <<IntT>>)), SArr(IntT), A(Arr(IntT)), A(SArr(IntT)),
+                        A(Wild("out", <<Arr(IntT)>>)), B(SArr(IntT))} : WF(WithArrays(CT), t)}
+
 CONSTANT UDepth
 Init == p \in ChainFamily \cup DFamily
 Next == UNCHANGED p
 Good == GoodTable(Table(p))
-Emit == Good => PrintT(ToJson([id |-> p, ct |-> Table(p), order |-> Order, u |-> SetToSeq(Universe(Table(p), UDepth))]))
+Emit == Good => PrintT(ToJson([id |-> p, ct |-> WithArrays(Table(p)), order |-> Order, u |-> SetToSeq(Universe(Table(p), UDepth) \cup ArrTerms(Table(p)))]))
 =============================================================================
